@@ -17,6 +17,16 @@ def apply():
         return False
     if getattr(bl.LazyIntSymbolicStr, "_verif_patched", False):
         return True
+    # builtinslib._repr (CrossHair's stand-in for repr()) carries a docstring with a "post" line, so the engine treats it as a
+    # function with a contract and, 30% of the time, SKIPS the call and substitutes a fresh symbolic str that is reconciled (or
+    # the whole path thrown away: "IgnoreAttempt ... Reconcile short circuit") later.  That only wastes paths (every f"{x!r}" in
+    # aioftp goes through it) and can starve a reachability twin of its budget.  Calls are always executed instead.
+    try:
+        from crosshair import core as _core
+
+        _core.ShortCircuitingContext.make_interceptor = lambda self, original: original
+    except Exception:  # noqa: BLE001
+        pass
 
     def norm(points, depth=0):
         if depth > 50:
